@@ -296,8 +296,8 @@ def gen_cases(rec, rng, tier):
         yield {'kind': 'nfa', 'cls': 'eps_two_cycles_renamed', 'ref': fag.random_renaming(rng, Rw), 'n': 3, 'eps': ''}
     for _ in range(200 if thorough else 18):
         nq, k = rng.randint(1, 6), rng.randint(1, 2)
-        yield {'kind': 'dfa', 'cls': 'random_dfa', 'ref': fag.random_dfa(rng, nq, k, names=rng.choice([None, fag.random_names(rng, nq)])), 'n': 5 if k == 2 else 8}
-        R = fag.random_nfa(rng, nq, k, eps_density=rng.choice([0.3, 0.8, 1.5]), names=rng.choice([None, fag.random_names(rng, nq)]))
+        yield {'kind': 'dfa', 'cls': 'random_dfa', 'ref': fag.random_dfa(rng, nq, k, names=rng.choice([None, fag.random_names(rng, nq, exotic=True)])), 'n': 5 if k == 2 else 8}
+        R = fag.random_nfa(rng, nq, k, eps_density=rng.choice([0.3, 0.8, 1.5]), names=rng.choice([None, fag.random_names(rng, nq, exotic=True)]))
         yield {'kind': 'nfa', 'cls': 'random_nfa', 'ref': R, 'n': 4 if k == 2 else 6, 'eps': rng.choice(['', '_', 'ε']), 'container': rng.choice(adapt.NFA_KINDS)}
     fam = list(pdag.hostile_pdas())
     for i, (cls, RP) in enumerate(fam):
